@@ -16,6 +16,12 @@ pub fn run(ctx: &Ctx) -> Report {
     for h in 1..=hmax {
         inits.push((format!("new_limited({h})"), Allocator::new_limited(h).verif_fork(), h));
     }
+    // heap limits next to the sizes of the large alphabet atoms (49 and 1100 bytes, their concatenations) and the
+    // pre-charged byte: the large-atom and concat paths then meet the cap from both sides
+    let big: Vec<usize> = if ctx.quick() { vec![1101, 1102, 1105] } else { vec![49, 50, 51, 52, 99, 1100, 1101, 1102, 1105, 1150, 1151, 2201, 2202] };
+    for h in &big {
+        inits.push((format!("new_limited({h})"), Allocator::new_limited(*h).verif_fork(), *h));
+    }
     // atom / pair caps: pre-load with ghosts to distance k from the cap
     for k in 0..=kmax {
         let mut a = Allocator::new();
@@ -49,7 +55,7 @@ pub fn run(ctx: &Ctx) -> Report {
     rep.evaluations = rep.transitions;
     rep.traces = rep.transitions;
     rep.nontrivial = rep.acc.get("cap_failures");
-    rep.rule = format!("explicit-state BFS (depth {depth}) of the allocator alphabet from pre-loaded start states: new_limited(h) for every h in 1..={hmax}, ghost atoms / ghost pairs at every distance k in 0..={kmax} from the 62,500,000 caps, and all three at once; oracle per transition: the operation fails with TooManyAtoms / TooManyPairs / OutOfMemory iff the heap-only model would exceed the matching cap, a failed call leaves the complete internal fingerprint unchanged, and no count exceeds its cap in any reached state. Non-trivial = transitions that failed at a cap exactly as predicted.");
+    rep.rule = format!("explicit-state BFS (depth {depth}) of the allocator alphabet from pre-loaded start states: new_limited(h) for every h in 1..={hmax} and h in {big:?} (next to the 49/1100-byte alphabet atoms), ghost atoms / ghost pairs at every distance k in 0..={kmax} from the 62,500,000 caps, and all three at once; oracle per transition: the operation fails with TooManyAtoms / TooManyPairs / OutOfMemory iff the heap-only model would exceed the matching cap, a failed call leaves the complete internal fingerprint unchanged, and no count exceeds its cap in any reached state. Non-trivial = transitions that failed at a cap exactly as predicted.");
     rep.assumptions.push("when two caps are exceeded at once either error is accepted".into());
     rep
 }
